@@ -283,6 +283,18 @@ func VerifC15Run() {
 	lens := c15DataLens[verifParam("lensbase", 0)+verifChoice("lens", verifParam("lensets", 1))]
 	H := 11 + 48*verifChoice("header", verifParam("headers", 1))
 	ign := c15IgnoreSet(verifParam("ignorebase", 0) + verifChoice("ignore", verifParam("ignoresets", 1)))
+	if ml := verifParam("symignore", 0); ml > 0 {
+		// C15.anyset: the ignore set is an arbitrary list of 0..ml kinds (any subset of the seven kinds
+		// KindTransaction..KindDataFrame up to that size, in any order, with duplicates), not one of the
+		// sets the commands happen to use. Values that are no kind are left out: how an implementation
+		// treats them is not part of the property. The kind bytes in the file stay arbitrary (0..255).
+		ign = make([]iplddecoders.Kind, verifChoice("ignore_len", ml+1))
+		for i := range ign {
+			v := verifInt("ignored_kind")
+			verifAssume(v >= int(iplddecoders.KindTransaction) && v <= int(iplddecoders.KindDataFrame))
+			ign[i] = iplddecoders.Kind(v)
+		}
+	}
 	skip := 0
 	if ms := verifParam("maxskip", 0); ms > 0 {
 		if ms > k {
@@ -301,6 +313,12 @@ func VerifC15Run() {
 
 	cb, got := c15Recorder(verifParam("slow", 0) == 1)
 	c15FlushKind = iplddecoders.KindBlock
+	if verifParam("symflush", 0) == 1 {
+		// C15.anyset: the flush kind is an arbitrary one of the seven kinds
+		fk := verifInt("flush_kind")
+		verifAssume(fk >= int(iplddecoders.KindTransaction) && fk <= int(iplddecoders.KindDataFrame))
+		c15FlushKind = iplddecoders.Kind(fk)
+	}
 	if nf := verifParam("flushkinds", 0); nf > 0 {
 		// C15.flushkind: the flush kind is a constructor argument, not a constant of the traversal
 		c15FlushKind = []iplddecoders.Kind{iplddecoders.KindTransaction, iplddecoders.KindEntry, iplddecoders.KindEpoch, iplddecoders.KindDataFrame}[verifChoice("flushkind", nf)]
